@@ -131,8 +131,8 @@ fn check(c: &Case, obs: &mut Obs) {
 fn cases(tier: Tier) -> Vec<Case> {
     let mut v = vec![];
     let t = tier.is_thorough();
-    let r = tier.pick(8, 12);
-    let widths: Vec<u32> = (1..=tier.pick(12, 16)).collect();
+    let r = tier.pick(8, 14);
+    let widths: Vec<u32> = (1..=tier.pick(12, 20)).collect();
     let rows: Vec<i32> = (-r..=r).collect();
     for x0 in -r..=r {
         for &y0 in &rows {
@@ -169,7 +169,7 @@ fn run_part(run: &mut Run) {
     let tier = run.tier;
     run.sweep_vec(
         "lines",
-        "all lines with end points in [-8,8]^2 (thorough [-12,12]^2) x stroke widths 1..=12 (16), plus boundary-value long lines {0,+-1,+-41,+-64,+-255} (thorough also +-37,+-300,+-1000) x widths {1,2,3,5,8,16,31}, plus lengths around 40 and 50 in all octants",
+        "all lines with end points in [-8,8]^2 (thorough [-14,14]^2) x stroke widths 1..=12 (20), plus boundary-value long lines {0,+-1,+-41,+-64,+-255} (thorough also +-37,+-300,+-1000) x widths {1,2,3,5,8,16,31}, plus lengths around 40 and 50 in all octants",
         || cases(tier),
         check,
     );
